@@ -712,7 +712,8 @@ bool opAlias(World& w, Obj& o, int p1, int p2)
   int len = cyc ? m.depthBelow(p2, p1) + 1 : 0;
   w.op(o.tag + ".aliasParameters(" + m.nm[u1] + "," + m.nm[u2] + ")");
   // Two different constraints whose descriptions (6 significant digits) read the same - only possible with
-  // almost equal bounds: the class documents that constraints are told apart by their description.
+  // almost equal bounds.  They are different constraints all the same: the pair has its own witness class
+  // (cons=both-same-description) and is judged like every other pair (both ends accept exactly the intersection).
   bool sameDesc = false;
   if (m.con[u1].has && m.con[u2].has && !sameI(m.con[u1], m.con[u2]))
     vrt::capture([&] {
@@ -738,15 +739,7 @@ bool opAlias(World& w, Obj& o, int p1, int p2)
   Expect ex;
   ex.focus = p2;
   Itv nc = interI(m.con[u1], m.con[u2]);
-  if (c1 && c2 && sameDesc)
-  {
-    // the two constraints cannot be told apart by the documented means: each end accepts at least the
-    // intersection and at most what it accepted before (the common value then still satisfies both)
-    ex.conLU[p1] = make_pair(nc, m.con[u1]);
-    ex.conLU[p2] = make_pair(nc, m.con[u2]);
-    vrt::tally("open-behaviour:alias-of-constraints-with-the-same-description");
-  }
-  else if (c1 && c2) { ex.conLU[p1] = make_pair(nc, nc); ex.conLU[p2] = make_pair(nc, nc); }
+  if (c1 && c2) { ex.conLU[p1] = make_pair(nc, nc); ex.conLU[p2] = make_pair(nc, nc); }
   else if (c2) { ex.conLU[p1] = make_pair(m.con[u2], m.con[u2]); }
   else if (c1) { ex.conLU[p2] = make_pair(m.con[u1], NONE); }
   m.par[u2] = p1;
@@ -1218,9 +1211,6 @@ bool genSet(World& w, Obj& o)
       bool inside = true;
       for (int i = 0; i < n; ++i) if (!okI(m.con[static_cast<size_t>(i)], st[static_cast<size_t>(i)])) inside = false;
       for (const Assign& a : as) for (int j : m.desc(a.i)) if (!okI(m.con[static_cast<size_t>(j)], a.v)) inside = false;
-      // (group `near`) ends whose constraints read the same may keep their own: a direct write to an aliased
-      // parameter stays inside what its sources accept as well
-      if (w.near) for (const Assign& a : as) for (int j : m.ancs(a.i)) if (!okI(m.con[static_cast<size_t>(j)], a.v)) inside = false;
       if (!inside) { vrt::tally("skipped:value-outside-constraints"); continue; }
     }
     if (staleCorner(m, as))
@@ -1572,7 +1562,7 @@ int main(int argc, char** argv)
   meta.assumptions = {
     "values inside the constraints of the updated parameter and of everything aliased to it; alias requests only when both current values lie inside the intersection",
     "interval pool with pairwise distinct bounds (equal bounds with different open/closed flags are C01's subject; group near: bounds of one side are pairwise different too, but only by a few ulps .. 1e-9), no precision on parameters",
-    "two different constraints whose getDescription() strings are equal (almost equal bounds of order 1, other side identical) cannot be told apart by the class: after aliasing each end accepts at least the intersection and at most what it accepted before",
+    "two different constraints whose getDescription() strings are equal (almost equal bounds of order 1, other side identical) are different constraints: after aliasing both ends accept exactly the intersection (class cons=both-same-description)",
     "an aliased parameter may take its source's value at alias time or only at the source's next change; an update that does not change its target may or may not re-synchronise the aliases; both accepted",
     "getAliases may map an aliased parameter to any of its (direct or indirect) sources; names returned by getAlias/getAliases/getFrom are compared modulo the namespace; getFrom is asked with and without namespace",
     "getAliasedParameters/getFromParameters are only observed without namespace",
